@@ -1,5 +1,6 @@
 import PlumpyModel.PM.Proof7
 import PlumpyModel.PM.LProof8
+import PlumpyModel.Persist.Proof7
 /-!
 # C04 — a kill request is never lost and no live process is unkillable
 
@@ -211,5 +212,162 @@ example : (runL sync2 (initL 0 [(.exiting, 3, .kill)]) [.tick]).c.st.label = .fi
 end
 
 end L
+
+/-!
+## A process loaded from a checkpoint
+
+"Every reachable live configuration" includes one that was LOADED: `saveCfg c` is what a bundle keeps of a configuration
+(`lean/PlumpyModel/Persist/Plain.lean`), `restoreCfg b` the fresh instance `load_instance_state` + `init()` build from it in a new
+event loop, `restoreCfgN m b` the same in an environment that holds `m` pending external futures (`Persist/Reload.lean`;
+`restoreCfgN 0 = restoreCfg` by `rfl`).  The theorems below hold for EVERY bundle `b` — in particular for
+`b = saveCfg (run P (init nf) evs)` taken at a step `boundary`, where `harness/props/c04.py` checkpoints (`checkpointAt`) — and for
+every history `evs` of events applied to the restored instance (callbacks in any order, pause, play, kill, resume, fail, call_soon,
+future cancellation, awaitable completions).  A restored configuration records no request (`_killing`, `_pausing`, the action table
+are not in a bundle), so it is a base case of the invariants `KillingOk` / `PausingOk` like `init nf`, and `init()` installs the
+`try_killing` callback on the loaded future exactly when it is still pending (`FutHook`).
+-/
+
+/-- **a kill of a restored process is never lost**: load any bundle, apply any history `evs₁`; if `kill()` then hands back an
+action future `k` (the restored process is live, inside a step, no kill pending), then after EVERY further history `evs₂` the
+process is KILLED or EXCEPTED, or the kill is still the pending interrupt action of the step in flight — exactly
+`C04_kill_committed`, with the restored configuration in the place of the freshly created one. -/
+theorem C04_restored_kill_committed (P : Prog) (m : Nat) (b : Saved) (evs₁ evs₂ : List Ev) (k : Nat) :
+    let r := run P (restoreCfgN m b) evs₁
+    terminal r.st.label = false → r.killing = none → (kill r).2 = .action k →
+    Committed k (run P (kill r).1 evs₂) :=
+  fun hl hnk hr => kill_never_lost_from P (restoreCfgN m b) (pausingOk_restored m b) evs₁ evs₂ k hl hnk hr
+
+/-- **no stale kill after a restore**: in every configuration reached from a restored one, a recorded `_killing` is the pending
+interrupt action of the step in flight, or the process is KILLED / EXCEPTED (`C04_no_stale_killing` for restored processes). -/
+theorem C04_restored_no_stale_killing (P : Prog) (m : Nat) (b : Saved) (evs : List Ev) (i : Nat)
+    (hk : (run P (restoreCfgN m b) evs).killing = some i) : Committed i (run P (restoreCfgN m b) evs) :=
+  (run_killingOk P (restoreCfgN m b) evs (killingOk_restored m b) (pausingOk_restored m b)).1 i hk
+
+/-- **from every live configuration reached by a restored process a further kill() still terminates it**: outside a step it
+kills at once (`True`; EXCEPTED only if entering KILLED fails); inside a step it hands back an action that is the pending kill of
+that step — which survives every further event (`C04_restored_kill_committed`) and kills when the step yields
+(`C04_end_of_step_kills`).  `C04_always_killable` for restored processes. -/
+theorem C04_restored_always_killable (P : Prog) (m : Nat) (b : Saved) (evs : List Ev)
+    (hl : terminal (run P (restoreCfgN m b) evs).st.label = false) :
+    let r := run P (restoreCfgN m b) evs
+    (r.stepping = false → (kill r).2 = .bool true ∧ ((kill r).1.st.label = .killed ∨ (kill r).1.st.label = .excepted)) ∧
+    (r.stepping = true → ∃ k, (kill r).2 = .action k ∧ Pending k (kill r).1) :=
+  always_killable_of _ (run_killingOk P (restoreCfgN m b) evs (killingOk_restored m b) (pausingOk_restored m b)).1 hl
+
+/-- the same in the words of the property: take any reachable configuration `c` at a step boundary (where the harness
+checkpoints), save it, load it (`restoreCfg (saveCfg c)`), let anything happen to the loaded process; if it is still live, `kill()`
+terminates it as it would a process that was never checkpointed.  (The hypothesis `boundary c` only says where checkpoints are
+taken; the conclusion holds for any bundle: `C04_restored_always_killable`.) -/
+theorem C04_checkpointed_process_killable (P : Prog) (nf : Nat) (evs evs' : List Ev) :
+    let c := run P (init nf) evs
+    let r := run P (restoreCfg (saveCfg c)) evs'
+    boundary c = true → terminal r.st.label = false →
+    (r.stepping = false → (kill r).2 = .bool true ∧ ((kill r).1.st.label = .killed ∨ (kill r).1.st.label = .excepted)) ∧
+    (r.stepping = true → ∃ k, (kill r).2 = .action k ∧ Pending k (kill r).1) :=
+  fun _ hl => C04_restored_always_killable P 0 (saveCfg (run P (init nf) evs)) evs' hl
+
+/-- **the kill hook is installed on a restored process**: in every configuration reached from a restored one, a process future
+that is still pending carries the `try_killing` callback, and that callback is not already scheduled.  (`init()` adds it when the
+loaded future is not done; nothing but `future().cancel()` touches a pending future.  The seeded change "the hook is attached in
+`__init__` only" makes exactly this false.) -/
+theorem C04_restored_future_has_kill_hook (P : Prog) (m : Nat) (b : Saved) (evs : List Ev) :
+    let r := run P (restoreCfgN m b) evs
+    r.fut = .pending → r.futHasKillCb = true ∧ Cb.trykill ∉ r.ready :=
+  run_futHook P (restoreCfgN m b) evs (futHook_restored m b)
+
+/-- the same for a process that was never checkpointed -/
+theorem C04_future_has_kill_hook (P : Prog) (nf : Nat) (evs : List Ev) :
+    let c := run P (init nf) evs
+    c.fut = .pending → c.futHasKillCb = true ∧ Cb.trykill ∉ c.ready :=
+  run_futHook P (init nf) evs (futHook_init nf)
+
+/-- **cancelling the future of a restored process has the same effect as kill()**: in every configuration `r` reached from a
+restored one whose future is still pending, `future().cancel()` succeeds and schedules `try_killing`; when that callback runs next,
+the configuration is the one `kill()` would have produced on `r` — every field: state object, action table, `_killing`, interrupt
+slot, heaps, logs, scheduled callbacks — except the process-future object itself (cancelled; replaced and resolved with
+`KilledError` when the process terminates, repair H) and the list of action futures handed to callers (`try_killing` keeps the
+one it gets to itself). -/
+theorem C04_restored_cancel_is_kill (P : Prog) (m : Nat) (b : Saved) (evs : List Ev) :
+    let r := run P (restoreCfgN m b) evs
+    r.fut = .pending →
+    (cancelFut r).2 = .bool true ∧ Cb.trykill ∈ (cancelFut r).1.ready ∧
+    SameButFut (tickCb (cancelFut r).1 .trykill) (kill r).1 :=
+  fun hf => cancel_then_trykill _ hf (run_futHook P (restoreCfgN m b) evs (futHook_restored m b))
+
+/-- the same for a process that was never checkpointed (`cancel_future_equals_kill` of the design) -/
+theorem C04_cancel_is_kill (P : Prog) (nf : Nat) (evs : List Ev) :
+    let c := run P (init nf) evs
+    c.fut = .pending →
+    (cancelFut c).2 = .bool true ∧ Cb.trykill ∈ (cancelFut c).1.ready ∧
+    SameButFut (tickCb (cancelFut c).1 .trykill) (kill c).1 :=
+  fun hf => cancel_then_trykill _ hf (run_futHook P (init nf) evs (futHook_init nf))
+
+/-- **… whenever the callback gets to run**: cancel the pending future of a live restored process, then let ANY history `evs₂`
+happen before the `try_killing` callback runs (the callbacks that were ready before it, further requests): the callback is still
+scheduled, and if the process is still live when it runs, it does what `kill()` does there — outside a step the process is KILLED
+(EXCEPTED if entering KILLED fails), inside a step the kill is the pending interrupt action, which then survives every further
+history `evs₃` (and kills when the step yields, `C04_end_of_step_kills`). -/
+theorem C04_restored_cancel_kills (P : Prog) (m : Nat) (b : Saved) (evs evs₂ : List Ev) :
+    let r := run P (restoreCfgN m b) evs
+    let r₂ := run P (cancelFut r).1 evs₂
+    r.fut = .pending → Ev.tickCb .trykill ∉ evs₂ →
+    Cb.trykill ∈ r₂.ready ∧
+    (terminal r₂.st.label = false →
+      (r₂.stepping = false → (tickCb r₂ .trykill).st.label = .killed ∨ (tickCb r₂ .trykill).st.label = .excepted) ∧
+      (r₂.stepping = true → ∃ k, Pending k (tickCb r₂ .trykill) ∧ ∀ evs₃, Committed k (run P (tickCb r₂ .trykill) evs₃))) := by
+  intro r r₂ hf hno
+  have hh := run_futHook P (restoreCfgN m b) evs (futHook_restored m b)
+  have hsched := (cancel_then_trykill r hf hh).2.1
+  have hr₂ : r₂ = run P (restoreCfgN m b) (evs ++ .cancelFut :: evs₂) := by
+    show run P (cancelFut r).1 evs₂ = _
+    simp only [run, List.foldl_append, List.foldl_cons, step]
+    rfl
+  have hinv := run_killingOk P (restoreCfgN m b) (evs ++ .cancelFut :: evs₂) (killingOk_restored m b) (pausingOk_restored m b)
+  rw [← hr₂] at hinv
+  have hmem : Cb.trykill ∈ r₂.ready := run_keeps_trykill P (cancelFut r).1 evs₂ hno hsched
+  refine ⟨hmem, fun hl => ?_⟩
+  have hk := trykill_kills r₂ hinv.1 hl hmem
+  refine ⟨hk.1, fun hs => ?_⟩
+  obtain ⟨k, hp⟩ := hk.2 hs
+  exact ⟨k, hp, pending_committed_run P k _ hp (step_pausingOk P r₂ (.tickCb .trykill) hinv.2)⟩
+
+-- non-vacuity: a process checkpointed when it enters WAITING (inside the callback of its stepping task, as the harness does),
+-- loaded in a fresh loop, is killed while it waits — by kill() and by cancelling its future; a process checkpointed while it
+-- is paused between two steps (a reachable boundary) is loaded paused and killed at once
+section
+private def waiter2 : Prog := fun fn _ _ _ => if fn = 0 then ⟨1, .ret (.wait 1)⟩ else ⟨0, .ret (.stop (some 7) true)⟩
+private def bWaiting : Saved := { st := .waiting 1, paused := false, fut := .pending, ctx := [] }
+example : checkpointAt waiter2 (run waiter2 (init 0) [.tick]) 3 = some bWaiting := by decide +kernel
+-- the restored process waits inside a step: kill() hands back an action, the wake-up of the step enacts it
+example : terminal (run waiter2 (restoreCfgN 0 bWaiting) [.tick]).st.label = false ∧
+    (run waiter2 (restoreCfgN 0 bWaiting) [.tick]).killing = none ∧
+    (kill (run waiter2 (restoreCfgN 0 bWaiting) [.tick])).2 = .action 0 := by decide +kernel
+example : (run waiter2 (restoreCfgN 0 bWaiting) [.tick, .kill, .tick]).st.label = .killed := by decide +kernel
+-- before its stepping task has run it is killed at once
+example : (kill (restoreCfgN 0 bWaiting)).2 = .bool true ∧ (kill (restoreCfgN 0 bWaiting)).1.st.label = .killed := by decide +kernel
+-- cancelling the future: hook installed, `try_killing` scheduled, the process ends KILLED with the future replaced
+example : (run waiter2 (restoreCfgN 0 bWaiting) [.tick]).fut = .pending ∧
+    (run waiter2 (restoreCfgN 0 bWaiting) [.tick]).futHasKillCb = true := by decide +kernel
+example : (run waiter2 (restoreCfgN 0 bWaiting) [.tick, .cancelFut]).ready = [.trykill] := by decide +kernel
+example : (run waiter2 (restoreCfgN 0 bWaiting) [.tick, .cancelFut, .tickCb .trykill, .tick]).st.label = .killed ∧
+    (run waiter2 (restoreCfgN 0 bWaiting) [.tick, .cancelFut, .tickCb .trykill, .tick]).fut = .exc .killedErr := by decide +kernel
+-- a callback that was ready before `try_killing` runs first (`C04_restored_cancel_kills` with `evs₂ = [callSoon, usercb]`)
+example : Ev.tickCb .trykill ∉ [Ev.callSoon false, .tickCb (.usercb false)] := by decide
+example : (run waiter2 (restoreCfgN 0 bWaiting) [.tick, .cancelFut, .callSoon false, .tickCb (.usercb false), .tickCb .trykill, .tick]).st.label = .killed := by
+  decide +kernel
+-- a reachable boundary in the sense of `run`: paused during an asynchronous step, the pause enacted when the step yields
+private def async2 : Prog := fun fn _ _ _ => if fn = 0 then ⟨1, .ret (.cont 1 [] [])⟩ else ⟨1, .ret (.stop (some 3) true)⟩
+example : boundary (run async2 (init 0) [.tick, .pause, .tick]) = true ∧
+    saveCfg (run async2 (init 0) [.tick, .pause, .tick]) = { st := .running 1 [] [], paused := true, fut := .pending, ctx := [] } := by
+  decide +kernel
+example : terminal (run async2 (restoreCfg (saveCfg (run async2 (init 0) [.tick, .pause, .tick]))) [.tick]).st.label = false ∧
+    (kill (run async2 (restoreCfg (saveCfg (run async2 (init 0) [.tick, .pause, .tick]))) [.tick])).1.st.label = .killed := by
+  decide +kernel
+-- a work chain restored while RUNNING finds the environment's fresh futures and is killed while it waits for them
+private def chain1 : Prog := fun fn _ _ _ => if fn = 0 then ⟨0, .ret (.waitOn 1 [(0, 0)])⟩ else ⟨0, .ret (.stop none true)⟩
+example : (run chain1 (restoreCfgN 1 { st := .running 0 [] [], paused := false, fut := .pending, ctx := [] }) [.tick]).st.label = .waiting ∧
+    (run chain1 (restoreCfgN 1 { st := .running 0 [] [], paused := false, fut := .pending, ctx := [] }) [.tick, .cancelFut, .tickCb .trykill, .tick]).st.label = .killed := by
+  decide +kernel
+end
 
 end PMF
